@@ -212,6 +212,19 @@ theorem civilNs_civilAt (ns off : Int) (y : Int) (m d h mi s sub : Nat)
   refine ⟨hr2, hr3, hr4, hr5, ?_, ?_, ?_, ?_, ?_⟩ <;> omega
 
 
+/-- the local day number of an instant at a fixed offset (for period keys: C13) -/
+def localDays (ns off : Int) : Int := (ns + off * 1000000000) / 1000000000 / 86400
+
+/-- the date shown for an instant at a fixed offset is the civil date of its local day number -/
+theorem civilAt_date (ns off : Int) :
+    ((civilAt ns off).1, (civilAt ns off).2.1, (civilAt ns off).2.2.1) = civilFromDays (localDays ns off) := by
+  simp only [civilAt, localDays]
+
+/-- at a fixed offset the local day number is monotone in the instant -/
+theorem localDays_mono (ns ns' off : Int) (h : ns ≤ ns') : localDays ns off ≤ localDays ns' off := by
+  unfold localDays
+  omega
+
 /-! ### fraction digits -/
 
 open Dec
